@@ -70,7 +70,6 @@ def wigm_prf_count_ledger(self: 'any_rule'):
     E = self.E
     requires(count_entry(E))
     requires(ledger_entry(E))
-    requires(not_(truthy(self.defeat_batch)))
     modifies_all(Candidate, 'state', 'pending', 'vote')
     modifies_all(Ballot, 'index', 'weight')
     modifies(E, 'quota', 'exhausted', 'round', 'surplus')
@@ -224,11 +223,12 @@ def mpls_main_loop(self):
 
 
 # --------------------------------------------------------------------------------------------- CfER
-@contract('droop.rules.cfer.Rule.count', props=['C01', 'C09'], site_props=['C02', 'C04', 'C06', 'C07'])
+@contract('droop.rules.cfer.Rule.count', props=['C01', 'C09'], site_props=['C02', 'C04', 'C06', 'C07'], ledger=True)
 def cfer_count(self: 'any_rule'):
-    "CfER (fixed-point arithmetic): counter-level contract"
+    "CfER (fixed-point arithmetic): counter-level contract and the vote ledger"
     E = self.E
     requires(count_entry(E))
+    requires(ledger_entry(E))
     ensures(ghost('nH') == 0, name='every candidate is decided: nobody is left hopeful')
     ensures(ghost('nP') == 0, name='no transfer is left pending')
     ensures(ghost('nW') == old(ghost('nW')), name='withdrawn candidates never change')
@@ -236,7 +236,7 @@ def cfer_count(self: 'any_rule'):
     modifies_all(Candidate, 'state', 'pending', 'vote')
     modifies_all(Ballot, 'index', 'weight')
     modifies(E, 'quota', 'exhausted', 'round', 'surplus')
-    modifies_ghost('nH', 'nE', 'nD', 'nP', 'nlog', 'lasttag', 'lastmsg')
+    modifies_ghost('nH', 'nE', 'nD', 'nP', 'nlog', 'lasttag', 'lastmsg', 'T', 'G')
 
 
 @loops('droop.rules.cfer.Rule.count', anchor='for#3')
@@ -245,6 +245,7 @@ def cfer_elect_loop(self):
     E = self.E
     invariant(forall('ref:droop.candidate.Candidate',
                      lambda c: implies(and_(in_election(c), c.state == 'elected', truthy(c.pending)), c.vote > E.quota)))
+    invariant(ghost('nP') <= old(ghost('nP')) + it)      # at most one more pending transfer per candidate elected
 
 
 @loops('droop.rules.cfer.Rule.count', anchor='for#7')
@@ -258,6 +259,9 @@ def cfer_surplus_loop(self):
     invariant(ghost('nH') == old(ghost('nH')))
     invariant(ghost('nE') == old(ghost('nE')))
     invariant(ghost('nD') == old(ghost('nD')))
+    invariant(implies(ledger_on(), ghost('T') <= old(ghost('T'))), props=['C02'])      # each surplus transfer can only lose value
+    invariant(implies(ledger_on(), ledger_piles(E)), props=['C02', 'C06'])
+    invariant(implies(ledger_on(), ledger_nonneg(E)), props=['C02'])
 
 
 @loops('droop.rules.cfer.Rule.count', anchor='while#1')
@@ -268,12 +272,9 @@ def cfer_main_loop(self):
     invariant(E.quota > E.V0)
     invariant(E.round >= 0)
     invariant(ghost('nH') + ghost('nE') >= E.electionProfile.nSeats)
+    invariant(implies(ledger_on(), ledger_total(E)), props=['C02'])
+    invariant(implies(ledger_on(), ledger_piles(E)), props=['C02', 'C06'])
+    invariant(implies(ledger_on(), ledger_nonneg(E)), props=['C02'])
     invariant(implies(E.round == 0, and_(ghost('nP') == 0, ghost('nE') == 0)))      # before the first round nobody is elected
     invariant(implies(E.round >= 1, ghost('nH') + ghost('nE') > E.electionProfile.nSeats))     # else the previous round ended the count
     variant(2 * ghost('nH') + ghost('nP'))
-
-
-
-# cfer / cfer-batch: count() is NOT under contract.  An attempt with the same counter-level contract generated 393 obligations in
-# ~5 min; the surplus loop (every pending surplus transferred inside one `for c in C.pending()` with a nested ballot sweep) leaves
-# 30 of them undecided (weight sites, variant, pending=>quota on two paths).  Not claimed; covered by the bounded stand-ins only.
